@@ -150,6 +150,9 @@ func c01Finding(k jsonCase, v reflect.Value) string       { return "" }
 func c01FindingNoHTML(k jsonCase, v reflect.Value) string { return "" }
 
 func c01Vector(c *Ctx, raw stdjson.RawMessage) {
+	if encStreamDispatch(c, raw) {
+		return
+	}
 	if strDispatch(c, raw) {
 		return
 	}
@@ -413,6 +416,9 @@ func c01Numbers(c *Ctx) {
 }
 
 func c01Replay(c *Ctx, raw stdjson.RawMessage) {
+	if encStreamDispatch(c, raw) {
+		return
+	}
 	if strDispatch(c, raw) {
 		return
 	}
